@@ -790,6 +790,8 @@ func (bl *builder) groupType(g *Group, host *Cmd) reflect.Type {
 			optFields = append(optFields, reflect.StructField{Name: blk.field, Type: reflect.StructOf(bf)})
 		case "e":
 			optFields = append(optFields, reflect.StructField{Name: blk.field, Type: reflect.StructOf(bf), Anonymous: true})
+		case "E": // embedded pointer to struct, nil at setup
+			optFields = append(optFields, reflect.StructField{Name: blk.field, Type: reflect.PtrTo(reflect.StructOf(bf)), Anonymous: true})
 		default: // "p", "P"
 			optFields = append(optFields, reflect.StructField{Name: blk.field, Type: reflect.PtrTo(reflect.StructOf(bf))})
 		}
@@ -942,7 +944,7 @@ func (bl *builder) bindGroup(cmdID, path string, g *Group, v reflect.Value, host
 		case "s", "e":
 			bv = v.FieldByName(blk.field)
 		default:
-			e, nb, follow, det := bl.throughPtr(v.FieldByName(blk.field), blk.mark == "p", phase, behind, "untagged pointer field "+blk.field)
+			e, nb, follow, det := bl.throughPtr(v.FieldByName(blk.field), blk.mark == "p" || blk.mark == "E", phase, behind, "untagged pointer field "+blk.field)
 			if !follow {
 				continue
 			}
